@@ -964,3 +964,64 @@ Proof.
     apply Nat.eqb_eq in E2. exact E2.
   - intros ->. split; [exact Hin|]. exists rr. split; [exact Hr|]. rewrite (Hk holder Hh). rewrite Nat.eqb_refl. reflexivity.
 Qed.
+
+(* ====================== part 11 ====================== *)
+
+(* ---- every owner built by a constructor is the parent of its note ---- *)
+Definition note_of (ob : obj) : option oid :=
+  match ob with
+  | OTable t => Some (t_note t) | OColumn c => Some (c_note c) | OIndex i => Some (i_note i)
+  | OEnumItem e => Some (ei_note e) | OProject p => Some (p_note p) | _ => None
+  end.
+Definition note_points_back (h : heap) (x : oid) : Prop :=
+  exists ob n nn, nth_error h x = Some ob /\ note_of ob = Some n /\ h_note h n = Some nn /\ n_parent nn = Some x.
+
+Lemma new_note_from_post a h h' n : new_note_from a h = (h', Ok n) -> n = length h /\ exists t, h' = h ++ [ONote (mkNote t None)].
+Proof.
+  unfold new_note_from. destruct a as [|s|o].
+  - unfold alloc. intros H; inversion H; subst. eauto.
+  - unfold alloc. intros H; inversion H; subst. eauto.
+  - intros H. apply bindM_inv in H as [[e [_ H]]|[x [h1 [H1 H]]]]; [discriminate H|].
+    pose proof (ro_get_note o _ _ _ H1) as ->. unfold alloc in H. inversion H; subst. eauto.
+Qed.
+
+(* the common shape: note, then the owner referring to it, then set_note_parent *)
+Lemma owner_with_note_post (mk : oid -> obj) a h h' x :
+  (forall n, note_of (mk n) = Some n) ->
+  (do! n <- new_note_from a ;; do! o <- alloc (mk n) ;; do!! set_note_parent n o ;; ret o) h = (h', Ok x) ->
+  note_points_back h' x.
+Proof.
+  intros Hmk H. apply bindM_inv in H as [[e [_ H]]|[n [h1 [H1 H]]]]; [discriminate H|].
+  destruct (new_note_from_post _ _ _ _ H1) as (-> & t & ->).
+  unfold bindM at 1 in H. unfold alloc in H. cbv beta iota in H.
+  set (h2 := (h ++ [ONote (mkNote t None)]) ++ [mk (length h)]) in *.
+  assert (Hn : nth_error h2 (length h) = Some (ONote (mkNote t None))).
+  { unfold h2. rewrite nth_error_app1 by (rewrite app_length; cbn; lia). rewrite nth_error_app2 by lia. rewrite Nat.sub_diag. reflexivity. }
+  assert (Hx : nth_error h2 (length (h ++ [ONote (mkNote t None)])) = Some (mk (length h))).
+  { unfold h2. rewrite nth_error_app2 by lia. rewrite Nat.sub_diag. reflexivity. }
+  apply bindM_inv in H as [[e [_ H]]|[u [h3 [H3 H]]]]; [discriminate H|]. unfold ret in H. inversion H; subst h3 x. clear H.
+  unfold set_note_parent, get_note, bindM, lookup in H3. rewrite Hn in H3. cbv beta iota in H3. unfold ret, store in H3. inversion H3; subst h'. clear H3.
+  assert (Nne : length h <> length (h ++ [ONote (mkNote t None)])) by (rewrite app_length; cbn; lia).
+  exists (mk (length h)), (length h), (mkNote t (Some (length (h ++ [ONote (mkNote t None)])))).
+  split; [rewrite nth_replace_other by exact Nne; exact Hx|]. split; [apply Hmk|]. split; [|reflexivity].
+  unfold h_note. rewrite (nth_replace_same' _ _ _ _ Hn). reflexivity.
+Qed.
+
+Theorem new_column_note n ty u nn pk ai d nt c p h h' x : new_column n ty u nn pk ai d nt c p h = (h', Ok x) -> note_points_back h' x.
+Proof. unfold new_column. apply (owner_with_note_post (fun k => OColumn (mkColumn n ty u nn pk ai c k p d None))). reflexivity. Qed.
+Theorem new_index_note s n u ty pk nt c h h' x : new_index s n u ty pk nt c h = (h', Ok x) -> note_points_back h' x.
+Proof. unfold new_index. apply (owner_with_note_post (fun k => OIndex (mkIndex s None (or_none n) u ty pk k c))). reflexivity. Qed.
+Theorem new_enumitem_note n nt c h h' x : new_enumitem n nt c h = (h', Ok x) -> note_points_back h' x.
+Proof. unfold new_enumitem. apply (owner_with_note_post (fun k => OEnumItem (mkEnumItem n k c))). reflexivity. Qed.
+Theorem new_project_note n i nt c h h' x : new_project n i nt c h = (h', Ok x) -> note_points_back h' x.
+Proof. unfold new_project. apply (owner_with_note_post (fun k => OProject (mkProject None n i k c))). reflexivity. Qed.
+Theorem new_table_note name schema alias nt hc c ab props h h' x :
+  new_table name schema alias [] [] nt hc c ab props h = (h', Ok x) -> note_points_back h' x.
+Proof.
+  unfold new_table. cbn [iterM]. intros H.
+  apply (owner_with_note_post (fun k => OTable (mkTable None name schema [] [] (or_none alias) k hc c ab props)) nt h h' x); [reflexivity|].
+  (* the two empty loops are no-ops *)
+  apply bindM_inv in H as [[e [_ H]]|[n [h1 [H1 H]]]]; [discriminate H|]. unfold bindM at 1. rewrite H1.
+  unfold bindM at 1 in H. unfold bindM at 1. destruct (alloc _ h1) as [h2 [t|e]] eqn:E; [|discriminate H].
+  unfold bindM in H. unfold ret at 1 2 in H. cbv beta iota in H. exact H.
+Qed.
